@@ -10,9 +10,10 @@ Theorem c18_tdigest_image_size : forall s, b_buf s = [] ->
   if tdb_is_empty s then 8%nat else if tdb_is_single s then 16%nat else (32 + 16 * length (b_cs s))%nat.
 Proof. exact tdb_image_size. Qed.
 
-(* in process, the buffer never exceeds BUFFER_MULTIPLIER * (2k + fudge) values (constants translated
+(* in process (histories not started from a decoded image, whose buffer is whatever the image says),
+   the buffer never exceeds BUFFER_MULTIPLIER * (2k + fudge) values (constants translated
    from the source) *)
-Theorem c18_tdigest_buffer_bound : forall h d, reach h d -> (Z.of_nat (length (td_buf d)) <= buf_limit (td_k d))%Z.
+Theorem c18_tdigest_buffer_bound : forall h d, reach h d -> inprocess h -> (Z.of_nat (length (td_buf d)) <= buf_limit (td_k d))%Z.
 Proof. exact buffer_bound. Qed.
 
 Example c18_tdigest_example : buf_limit 200 = 1640%Z /\ buf_limit 10 = 200%Z.
